@@ -112,6 +112,10 @@ def _multi():
     for nm, ov in (("dataset overload", ("ds", "both", {"params": [da, db]})), ("plain overload", ("list", [da, db]))):
         table = ("ds", "table", {"params": [("opt", "A")], "dispatch": ("optkey", "D"), "late_overloads": [("both", ov)]})
         out.append((f"multi:self-derivative {nm}", [table], [("A", [ABSENT, 1, 2, 3]), ("D", [ABSENT, "file", "both"])]))
+    # two datasets defined through ONE stored factory that was given a cache callable: same keys, different bodies
+    sf1 = ("ds", "double", {"params": [("opt", "A")], "cache": "stored_factory"})
+    sf2 = ("ds", "square", {"params": [("opt", "A")], "cache": "stored_factory", "callback": ("fn", "cb")})
+    out.append(("multi:two datasets from one stored factory", [sf1, sf2], [A3, B3]))
     sw = ("switch", ("optkey", "D"), [("x", inner), ("y", ("ds", "other", {"params": [("opt", "B")]}))], ("val", "dflt"))
     out.append(("multi:cached switch", [("cached", sw, "c"), inner], [A3, B3, ("D", [ABSENT, "x", "y", "zz"])]))
     co = ("coalesce", [inner, ("ds", "other", {"params": [("opt", "B")]}), ("val", "none")])
